@@ -10,6 +10,8 @@
 """
 import itertools
 import os
+import re
+import signal
 
 from ..core import Prop, shrink, watchdog, WatchdogTimeout
 from ..gen import c17gen as G
@@ -17,9 +19,32 @@ from ..gen import c17gen as G
 BATCH = 1000
 BATCH_WATCHDOG = 30  # seconds for a batch of 1000 strings (normally ~20 ms)
 CASE_WATCHDOG = 5
+WATCHDOG_CAP = "per-case watchdog (5 s CPU) fired in the round-trip part: those cases are not judged (unjudged:watchdog)"
 
 # ------------------------------------------------------------------------------------------------
 # running the implementation
+
+
+class cpu_watchdog(object):
+    """like core.watchdog but counts the CPU time of this process (ITIMER_PROF): a parser that loops burns CPU, a
+    worker that is merely starved on a loaded machine does not, so a per-case limit can not fire spuriously"""
+
+    def __init__(self, seconds):
+        self.seconds = seconds
+
+    def _handler(self, signum, frame):
+        raise WatchdogTimeout()
+
+    def __enter__(self):
+        self.old = signal.signal(signal.SIGPROF, self._handler)
+        signal.setitimer(signal.ITIMER_PROF, self.seconds)
+        return self
+
+    def __exit__(self, *exc):
+        signal.setitimer(signal.ITIMER_PROF, 0)
+        signal.signal(signal.SIGPROF, self.old)
+        return False
+
 
 
 def _parse_default(s):
@@ -52,7 +77,7 @@ def run_parse(s, api="PrologString"):
 
 def parse_outcome(s, api="PrologString", timeout=CASE_WATCHDOG):
     try:
-        with watchdog(timeout):
+        with cpu_watchdog(timeout):
             return run_parse(s, api)
     except WatchdogTimeout:
         return ("hang",)
@@ -99,6 +124,9 @@ def struct(t):
     return [type(t).__name__, fs, ps, [struct(a) for a in t.args]]
 
 
+_REWRITTEN_NON_NAME = re.compile(r"^(?![a-z][A-Za-z0-9_]*_[np]$)(?!'.*'$)(?!'[^']*'_[np]$).*_[np]$")
+
+
 def unsupported_reason(clauses):
     """Shapes on which the round trip is not judged (counted as unjudged):
     * a ``None`` inside a parsed term (only produced by the empty parentheses ``()``; the totality part owns that),
@@ -119,8 +147,10 @@ def unsupported_reason(clauses):
             return None
         if not isinstance(t, Term):
             return None
-        if head_ok and type(t) is Term and (str(t.functor).startswith("[]_") or str(t.functor).startswith("._")):
-            return "head-not-callable"  # \+[] :- ..., \+[a] :- ... (negated head literal rewriting on a list)
+        if head_ok and type(t) is Term and _REWRITTEN_NON_NAME.match(str(t.functor)):
+            # \+[] :- b, \+[a] :- b, \+! :- b: negated-head rewriting (functor + "_n" / "_p") of something that is
+            # not a predicate name
+            return "head-not-callable"
         if t.probability is not None:
             if not head_ok or type(t) is not Term:
                 return "nested-probability"
@@ -220,7 +250,7 @@ def rt_symptom(v):
 
 def rt_case(case):
     try:
-        with watchdog(CASE_WATCHDOG):
+        with cpu_watchdog(CASE_WATCHDOG):
             return roundtrip(case["ctx"] % G.render(case["expr"]))
     except WatchdogTimeout:
         return ("hang",)
@@ -256,6 +286,7 @@ def shrink_memo(case, candidates, fails, keyf, memo, limit=20000):
     for k in path:
         memo[k] = res
     return res
+
 
 # characters from simplest to most complex; a string shrinks towards fewer and "simpler" characters
 _CHAR_ORDER = "a1X_ .:-()[],;|+=\\<>*/^~@#&!?%$'\"`{}"
@@ -296,17 +327,35 @@ def shrink_string(s, api, symptom):
 def expr_candidates(case):
     for c in G.shrink_candidates(case):
         yield c
-    # operator canonicalisation: the earliest operator of the table with which the same symptom reproduces
+    # Operator canonicalisation: the earliest operator of the table with which the same symptom reproduces.
+    # Only operators with the same *baseline* are exchanged ("(a) op (a)." round-trips / is rejected / fails by
+    # itself): an operator that is broken on its own (a token typo) never absorbs, and is never absorbed by, the
+    # failures of operators that are only mis-printed in a nesting.
     for c in _op_variants(case["expr"]):
         yield {"ctx": case["ctx"], "expr": c}
+
+
+_BASELINE = {}
+
+
+def op_baseline(kind, op):
+    key = (kind, op)
+    if key not in _BASELINE:
+        a = ["leaf", "a"]
+        e = ["bin", op, "p", a, a] if kind == "bin" else ["un", op, "p", a]
+        v = rt_case({"ctx": G.CONTEXTS[0], "expr": e})
+        _BASELINE[key] = v[0] if v[0] != "rejected" else "rejected:" + str(v[1])
+    return _BASELINE[key]
 
 
 def _op_variants(e):
     if e[0] == "bin":
         _, op, form, l, r = e
         if op in G.BINOPS:
+            base = op_baseline("bin", op)
             for op2 in G.BINOPS[: G.BINOPS.index(op)]:
-                yield ["bin", op2, form, l, r]
+                if op_baseline("bin", op2) == base:
+                    yield ["bin", op2, form, l, r]
         for l2 in _op_variants(l):
             yield ["bin", op, form, l2, r]
         for r2 in _op_variants(r):
@@ -314,8 +363,10 @@ def _op_variants(e):
     elif e[0] == "un":
         _, op, form, x = e
         if op in G.UNOPS:
+            base = op_baseline("un", op)
             for op2 in G.UNOPS[: G.UNOPS.index(op)]:
-                yield ["un", op2, form, x]
+                if op_baseline("un", op2) == base:
+                    yield ["un", op2, form, x]
         for x2 in _op_variants(x):
             yield ["un", op, form, x2]
 
@@ -481,7 +532,7 @@ def ctor_roundtrip(d):
 
 def ctor_case(d):
     try:
-        with watchdog(CASE_WATCHDOG):
+        with cpu_watchdog(CASE_WATCHDOG):
             return ctor_roundtrip(d)
     except WatchdogTimeout:
         return ("hang",)
@@ -578,7 +629,7 @@ class C17(Prop):
         "on a plain callable clause head / fact / AD head, heads that are lists (0.5::[a], \\+[a] :- b)",
         "not/\\+ are the same negation for the walker; location, op_priority, op_spec are not part of a term",
         "a parser defect that is the same in both parses (e.g. a dropped list tail) is invisible to the fixpoint",
-        "hangs are detected by a 30 s watchdog per batch of 1000 strings, then per string (5 s)",
+        "hangs are detected by a 30 s wall-clock watchdog per batch of 1000 strings, then confirmed per string with a 5 s CPU-time watchdog",
         "the string sets of the three families overlap slightly; states counts strings per family",
     ]
     budget = {"quick": 240, "thorough": 2400}
@@ -750,6 +801,7 @@ class C17(Prop):
         if kind == "hang":
             acc.outcomes["rt:hang"] += 1
             acc.counters["unjudged:watchdog"] += 1
+            acc.cap(WATCHDOG_CAP)
             return
         if kind == "src-crash":
             self._crash(case_source(case), "PrologString", v[1], acc, known)
@@ -812,6 +864,7 @@ class C17(Prop):
             acc.transitions += 2
             if v[0] == "hang":
                 acc.counters["unjudged:watchdog"] += 1
+                acc.cap(WATCHDOG_CAP)
                 continue
             acc.traces += 1
             acc.nontrivial += 1
